@@ -643,6 +643,9 @@ func (ctx *actorContext) onRestart() {
 	if !ctx.status.CompareAndSwap(actorStatusAlive, actorStatusRestarting) {
 		return
 	}
+	// the old instance handles no further user message: the mailbox stays suspended until the new instance has been
+	// installed (tryRestarted resumes it) or the restart is overtaken by a termination (onTerminate resumes it)
+	ctx.deliverySystemMessage(ctx.ref, ctx.ref, ctx.ref, nil, onSuspendMailbox)
 
 	ctx.processMessage(ctx.sender, ctx.ref, onRestarting, false)
 
